@@ -638,6 +638,7 @@ static int list_delete(vnaproperty_t *list, int index)
 	errno = ENOENT;
 	return -1;
     }
+    vnaproperty_free(vplp->vpl_vector[index]);
     (void)memmove((void *)&vplp->vpl_vector[index],
 		  (void *)&vplp->vpl_vector[index + 1],
 		  (vplp->vpl_length - index) * sizeof(vnaproperty_t *));
